@@ -224,8 +224,13 @@ func c19(e *Env) {
 	}
 	var recs []*tlsConnRecord
 	expired := false
-	serve := func(service, kind string, app func(tc *tls.Conn, rec *tlsConnRecord)) func(*simnet.PeerEnd) {
+	curSniKind := sniKind // what the SNI proxy presents to connections made from now on
+	serve := func(service, kind0 string, app func(tc *tls.Conn, rec *tlsConnRecord)) func(*simnet.PeerEnd) {
 		return func(pe *simnet.PeerEnd) {
+			kind := kind0
+			if kind == "@sni" {
+				kind = curSniKind
+			}
 			rec := &tlsConnRecord{service: service, kind: kind, at: w.Now()}
 			recs = append(recs, rec)
 			scfg := &tls.Config{ClientAuth: tls.RequestClientCert, MinVersion: tls.VersionTLS12}
@@ -275,7 +280,7 @@ func c19(e *Env) {
 			fmt.Fprintf(tc, "HTTP/1.1 200 OK\r\nContent-Type: application/json\r\nContent-Length: %d\r\nConnection: close\r\n\r\n%s", len(metaJSON), metaJSON)
 			tc.Close()
 		}),
-		sniAddr: serve("sni-proxy", sniKind, func(tc *tls.Conn, rec *tlsConnRecord) {
+		sniAddr: serve("sni-proxy", "@sni", func(tc *tls.Conn, rec *tlsConnRecord) {
 			n := hostID[rec.sni]
 			if n == nil || !n.Up {
 				tc.Close()
@@ -399,6 +404,33 @@ func c19(e *Env) {
 			}
 			e.Res.Stats["probe.c19.expired_during_run"]++
 		}
+	}
+	if booted && sniKind != "expires-during-run" && c.Choose("swap-chain", 2) == 1 {
+		// the nodes behind the SNI proxy start presenting another chain (rotation, a restarted
+		// node, another backend): every connection is judged by the chain it was shown, whatever
+		// earlier handshakes through the same endpoint were shown
+		nConns = len(recs)
+		curSniKind = c19Kinds[c.Choose("sni2", len(c19Kinds))]
+		if curSniKind == "expires-during-run" {
+			curSniKind = "intermediate-missing"
+		}
+		for _, n := range w.Nodes {
+			for _, bc := range n.Conns {
+				bc.Closed = true
+			}
+		}
+		for _, l := range w.N.Links() {
+			if strings.HasPrefix(l.Tag, "svc:"+sniAddr) && !l.IsReset() {
+				l.PeerReset()
+			}
+		}
+		w.RunUntil(func() bool { return len(recs) >= nConns+2 }, 2*time.Minute)
+		w.RunUntil(func() bool { return false }, 30*time.Second)
+		detail += ", later " + curSniKind
+		if w.Stopped() || !check() {
+			return
+		}
+		e.Res.Stats["probe.c19.chain_swapped_to."+curSniKind]++
 	}
 	acc, rej := 0, 0
 	for _, r := range recs {
